@@ -37,11 +37,11 @@ FUNCTIONS = [
 BOUNDS = {
     "quick": "kernels (transformer_util): P<=3 pixels, K=2 baselines, S=2 columns; pixel coordinates in radians, baselines, image, signed mapping "
              "matrix and complex visibilities ALL symbolic reals (cos/sin abstracted, see STUBS); one merged path covers every sign pattern of the matrix; "
-             "plus 2 concrete kernel geometries (3-4 pixels incl. a repeated pixel, zero / repeated / non-integer baselines) with native cos/sin, tolerance 1e-9. "
+             "plus 3 concrete kernel geometries (3-4 pixels incl. a repeated pixel, zero / repeated / nearly-equal / non-integer baselines) with native cos/sin, tolerance 1e-9. "
              "TransformerDFT class: every mask (>=1 unmasked pixel) of shape 2x2 by forking, preload on/off, image (slim- and native-stored Array2D), "
              "signed mapping matrix (2 columns), directly constructed and arithmetic-derived Visibilities symbolic; geometry either symbolic "
-             "(origin and K=2 baselines symbolic, pixel scales (0.5, 2.0); exact obligations) or concrete (3 geometries with anisotropic scales, "
-             "off-centre origin, zero and repeated baselines; native cos/sin against an independent complex-exponential reference, tolerance 1e-9, "
+             "(origin and K=2 baselines symbolic, pixel scales (0.5, 2.0); exact obligations) or concrete (4 geometries with anisotropic scales, "
+             "off-centre origin, zero, repeated and nearly-equal consecutive baselines (relative difference 2^-20 at |u| ~ 1e6); native cos/sin against an independent complex-exponential reference, tolerance 1e-9, "
              "symbolic values bounded by 1000 in magnitude). Every class case also transforms an image whose own mask has the same pattern but another "
              "origin / pixel scale (the transformer's geometry must be used), and runs a history: transformer built from caller-owned uv and mask arrays, "
              "transform, caller overwrites both arrays in place, transform / adjoint / matrix path again - all results must belong to the baselines and "
@@ -51,7 +51,7 @@ BOUNDS = {
              "objects, symbolic geometry), preload on/off. Every inversion case is a two-step history: two inversions built from the SAME dataset "
              "object (and, in (i), two direct calls of the data-vector util with the same caller-owned arrays); T, D, F are checked both times and "
              "the dataset's / caller's data, noise and matrix arrays must still hold their original terms afterwards.",
-    "thorough": "as quick with: kernels up to P=4, K=3, S=3; class: every mask of 2x3 and 3x2 (concrete geometries 0-2) and of 2x3 (symbolic geometry, K=3, "
+    "thorough": "as quick with: kernels up to P=4, K=3, S=3; class: every mask of 2x3 and 3x2 (concrete geometries 0-3) and of 2x3 (symbolic geometry, K=3, "
                 "scale pairs (0.5,2.0) and (0.25,0.25)); inversion (i) up to K=4 visibilities and up to 4 parameters in two linear objects, "
                 "(ii) all masks of 2x2, K=3, 2+1 parameters, with and without regularization.",
 }
@@ -857,6 +857,8 @@ GEOMS = [
     {"scales": (1.0, 2.0), "origin": (0.5, -1.0), "uv": [[0.0, 0.0], [100000.5, -200000.25], [100000.5, -200000.25], [30000.75, 50000.5]]},
     {"scales": (0.25, 0.25), "origin": (0.0, 0.0), "uv": [[-400000.5, 150000.25], [0.0, 70000.75]]},
     {"scales": (3.0, 0.5), "origin": (-2.0, 7.5), "uv": [[25000.5, 25000.5], [25000.5, 25000.5], [-60000.25, 0.0]]},
+    # long baselines; consecutive baselines that differ by ~2^-20 relative (one wavelength at |u| ~ 1e6): distinct columns of A
+    {"scales": (0.5, 0.5), "origin": (0.25, -0.75), "uv": [[1048576.0, -524288.5], [1048577.0, -524289.0], [-300000.25, 700000.5], [-300000.5, 700001.25]]},
 ]
 
 
@@ -1036,6 +1038,7 @@ def case_inversion_real(ctx, H, W, K, S1, S2, preload, reg, scales=(0.5, 2.0)):
 KGEOMS = [
     {"grid": [[1.0e-5, -2.5e-6], [3.2e-6, 4.1e-6], [-7.7e-6, 0.0]], "uv": [[12345.5, -54321.25], [0.0, 0.0], [99999.0, 1000.5]]},
     {"grid": [[0.0, 0.0], [4.8e-6, 4.8e-6], [4.8e-6, 4.8e-6], [-9.6e-6, 1.2e-6]], "uv": [[2.5e5, 2.5e5], [2.5e5, 2.5e5]]},
+    {"grid": [[1.1e-5, -2.3e-6], [3.7e-6, 6.1e-6], [-7.9e-6, 1.3e-6]], "uv": [[1048576.0, -2097152.5], [1048577.0, -2097153.5], [1048577.0, -2097153.5]]},
 ]
 
 
@@ -1071,6 +1074,8 @@ def cases(tier):
             out.append(("case_inversion_real", {"H": 1, "W": 2, "K": 2, "S1": 1, "S2": 1, "preload": pre, "reg": True}, UF))
         out.append(("case_class_concrete", {"H": 2, "W": 2, "gid": 1, "S": 1, "preload": True}))
         out.append(("case_class_concrete", {"H": 2, "W": 2, "gid": 2, "S": 1, "preload": False}))
+        out.append(("case_class_concrete", {"H": 2, "W": 2, "gid": 3, "S": 1, "preload": True}))
+        out.append(("case_class_concrete", {"H": 2, "W": 2, "gid": 3, "S": 1, "preload": False}))
         out.append(("case_inversion_stub", {"K": 2, "S1": 2, "S2": 1, "reg": True}, NRA))
         out.append(("case_inversion_stub", {"K": 3, "S1": 1, "S2": 0, "reg": False}, NRA))
     else:
